@@ -73,10 +73,13 @@ Definition InvT (now : Z) (s : state) : Prop :=
 
 Lemma inv_b_iff s : inv_b s = true <-> Inv s.
 Proof.
-  unfold inv_b, Inv. rewrite !andb_true_iff, orb_true_iff, negb_true_iff.
-  rewrite !Z.leb_le, !Z.ltb_lt, !Z.eqb_eq, Z.eqb_neq. split.
-  - intros H. repeat split; try lia.
-  - intros H. repeat split; try lia. destruct (Z.eq_dec (sr_last s) 0); [right|left]; lia.
+  unfold inv_b, Inv.
+  destruct (Z.leb_spec 0 (sr_err s)); destruct (Z.ltb_spec (sr_err s) PREC);
+  destruct (Z.leb_spec 0 (c_rate s)); destruct (Z.leb_spec 0 (c_upg_rate s));
+  destruct (Z.leb_spec 0 (pool s)); destruct (Z.leb_spec 0 (sr_last s));
+  destruct (Z.leb_spec 0 (c_upg s)); destruct (Z.leb_spec 0 (kd_prev s));
+  destruct (Z.eqb_spec (sr_last s) 0); destruct (Z.eqb_spec (sr_err s) 0);
+  cbn; split; intros HH; try discriminate; try reflexivity; try lia.
 Qed.
 
 (** * one payout *)
@@ -143,8 +146,8 @@ Proof.
   unfold kavadist_bb. destruct (kd_active s) eqn:A; cbn [negb].
   - destruct (kd_prev s =? 0).
     + intros H; inversion H; subst. cbn. repeat split; try reflexivity; intros; discriminate.
-    + destruct (mint_periods false t (kd_periods s) 0 (kd_prev s) (supply s)) as [[sup1 ws1]|]; [|discriminate].
-      destruct (mint_periods true t (kd_infra s) 0 (kd_prev s) sup1) as [[sup2 ws2]|]; [|discriminate].
+    + destruct (mint_periods t (kd_periods s) 0 (kd_prev s) (supply s)) as [[sup1 ws1]|]; [|discriminate].
+      destruct (mint_periods t (kd_infra s) 0 (kd_prev s) sup1) as [[sup2 ws2]|]; [|discriminate].
       intros H; inversion H; subst. cbn. repeat split; try reflexivity; intros; discriminate.
   - intros H; inversion H; subst. repeat split; try reflexivity; intros; try discriminate; auto.
 Qed.
@@ -176,3 +179,690 @@ Qed.
 Lemma check_disable_last t c s : sr_last (fst (check_disable t c s)) = sr_last s /\
   sr_err (fst (check_disable t c s)) = sr_err s /\ kd_prev (fst (check_disable t c s)) = kd_prev s.
 Proof. unfold check_disable. destruct (switch_due t s); cbn; auto. Qed.
+
+(** * facts about one successful step *)
+
+Definition clock (now : Z) (o : op) : Z := match o with Block t _ _ => t | _ => now end.
+Definition head_ok (now : Z) (o : op) : Prop :=
+  match o with Block t m c => now <= t /\ 0 < t /\ 0 <= m /\ 0 <= c | _ => True end.
+
+Lemma mono_cons now o r : mono now (o :: r) <-> head_ok now o /\ mono (clock now o) r.
+Proof. destruct o; cbn; tauto. Qed.
+
+Lemma InvT_weaken now now' s : InvT now s -> now <= now' -> InvT now' s.
+Proof. unfold InvT. intros (H & A & B) L. split; [exact H|split; lia]. Qed.
+
+Definition pay_ctx (s s' : state) (adj : Z) (r : payrec) : Prop :=
+  p_pool r = pool s + adj /\ p_err0 r = sr_err s /\ p_gap r = sr_last s' - sr_last s /\
+  p_rate r = c_rate s' /\ sr_last s <> 0.
+
+Ltac fsimpl := cbn [sr_last sr_err c_rate c_upg c_upg_rate pool sink kdbal supply m_min m_max d_tax
+  kd_active kd_prev kd_periods kd_infra set_sr set_bank set_rate set_kd
+  p_gap p_rate p_pool p_err0 p_paid p_err1 fst snd zsum map fold_right flat_map app
+  b_pay b_cons b_fired b_time b_mint b_ws b_wsi length filter] in *.
+
+Lemma block_facts now t m c s s' x :
+  InvT now s -> head_ok now (Block t m c) -> block t m c s = Ok s' x ->
+  InvT t s' /\
+  Forall pay_good (pays [x]) /\
+  NS * (PREC * paid_sum [x] + sr_err s') + rem_sum [x] + loss_sum [x] = NS * sr_err s + sched_sum [x] /\
+  pool s' = pool s + adj_sum [x] - paid_sum [x] /\
+  Forall (pay_ctx s s' (adj_sum [x])) (pays [x]) /\
+  sr_last s' = t /\ (pays [x] = [] -> sr_last s = 0).
+Proof.
+  intros (HI & HL & HK) (Hn & Ht & Hm & Hc) HB.
+  apply block_inv in HB. destruct HB as (s2 & pay & s3 & mm & ws & wsi & P & M & K & ->).
+  pose proof (check_disable_inv t c s HI Hc) as HI1.
+  destruct (check_disable_last t c s) as (L1 & L2 & L3).
+  assert (Pool1 : pool (fst (check_disable t c s)) = pool s + (if switch_due t s then c else 0)).
+  { unfold check_disable. destruct (switch_due t s); cbn [fst pool]; lia. }
+  set (s1 := fst (check_disable t c s)) in *.
+  rewrite payout_eq in P by (try exact HI1; lia).
+  apply kavadist_frame in K.
+  destruct K as (K1 & K2 & K3 & K4 & K5 & K6 & K7 & K8 & K9 & K10 & K11 & K12 & K13 & K14 & K15).
+  unfold mint_bb in M. inversion M; subst s3 mm; clear M. fsimpl.
+  assert (Hkp : 0 <= kd_prev s' <= t).
+  { destruct (kd_active s2) eqn:A.
+    - rewrite (K15 eq_refl). lia.
+    - destruct (K14 eq_refl) as (-> & _). fsimpl. destruct HI as (_ & _ & _ & _ & _ & _ & HI7 & _).
+      destruct (sr_last s1 =? 0); inversion P; subst s2; fsimpl; lia. }
+  unfold paid_sum, rem_sum, loss_sum, sched_sum, adj_sum, pays. fsimpl.
+  destruct (Z.eqb_spec (sr_last s1) 0) as [Z0|NZ0].
+  - inversion P; subst s2 pay; clear P. fsimpl.
+    split; [|repeat split; try constructor; lia].
+    unfold InvT, Inv in *. rewrite K1, K2, K3, K4, K5, K6. lia.
+  - pose proof (pay_of_good t s1 HI1 ltac:(lia)) as G.
+    assert (E1 : p_err0 (pay_of t s1) = sr_err s1) by reflexivity.
+    assert (E2 : p_pool (pay_of t s1) = pool s1) by reflexivity.
+    assert (E3 : p_gap (pay_of t s1) = t - sr_last s1) by reflexivity.
+    assert (E4 : p_rate (pay_of t s1) = c_rate s1) by reflexivity.
+    remember (pay_of t s1) as r eqn:Er. clear Er. cbv zeta in P.
+    inversion P; subst s2 pay; clear P. fsimpl.
+    assert (G' := G). destruct G' as (G1 & G2 & G3 & G4 & G5 & G6 & G7 & G8 & G9).
+    split; [|repeat split; try (constructor; [|constructor])].
+    + unfold InvT, Inv in *. rewrite K1, K2, K3, K4, K5, K6. lia.
+    + exact G.
+    + rewrite K2. lia.
+    + rewrite K6. lia.
+    + unfold pay_ctx. rewrite K1, K3. repeat split; try lia.
+    + exact K1.
+    + discriminate.
+Qed.
+
+Lemma payout_frame t s s' p : payout t s = Ok s' p ->
+  c_rate s' = c_rate s /\ c_upg s' = c_upg s /\ c_upg_rate s' = c_upg_rate s /\
+  m_min s' = m_min s /\ m_max s' = m_max s /\ d_tax s' = d_tax s /\
+  kd_active s' = kd_active s /\ kd_prev s' = kd_prev s /\ kd_periods s' = kd_periods s /\
+  kd_infra s' = kd_infra s /\ supply s' = supply s /\ kdbal s' = kdbal s.
+Proof.
+  unfold payout. destruct (sr_last s =? 0).
+  - destruct (valid_sr (sr_err s)); [|discriminate]. intros H; inversion H; subst. cbn. repeat split.
+  - destruct (calc_staking_rewards t (sr_last s) (sr_err s) (c_rate s) (dec_of_int (pool s))) as [paid e'].
+    destruct (paid <? 0); [discriminate|]. destruct (pool s <? paid); [discriminate|].
+    destruct (valid_sr e'); cbn [negb]; [|discriminate].
+    intros H; inversion H; subst. cbn. repeat split.
+Qed.
+
+(* a block in which the switch is not due leaves the switched parameters alone *)
+Lemma block_nofire t m c s s' x : switch_due t s = false -> block t m c s = Ok s' x ->
+  c_rate s' = c_rate s /\ c_upg s' = c_upg s /\ c_upg_rate s' = c_upg_rate s /\
+  m_min s' = m_min s /\ m_max s' = m_max s /\ d_tax s' = d_tax s /\ kd_active s' = kd_active s /\
+  (exists b, x = OBlock b /\ b_fired b = false /\ b_cons b = 0).
+Proof.
+  intros D HB. apply block_inv in HB. destruct HB as (s2 & pay & s3 & mm & ws & wsi & P & M & K & ->).
+  unfold check_disable in P. rewrite D in *. cbn [fst] in P.
+  apply payout_frame in P. apply kavadist_frame in K. unfold mint_bb in M. inversion M; subst s3 mm; clear M.
+  fsimpl. destruct P as (P1 & P2 & P3 & P4 & P5 & P6 & P7 & _).
+  destruct K as (_ & _ & K3 & K4 & K5 & _ & _ & K8 & K9 & K10 & K11 & _).
+  repeat split; try congruence. eexists; repeat split.
+Qed.
+
+(* the block in which the switch is due *)
+Lemma block_fire t m c s s' x : switch_due t s = true -> block t m c s = Ok s' x ->
+  c_rate s' = c_upg_rate s /\ c_upg s' = 0 /\ c_upg_rate s' = c_upg_rate s /\
+  m_min s' = 0 /\ m_max s' = 0 /\ d_tax s' = 0 /\ kd_active s' = false /\
+  supply s' = supply s /\ kdbal s' = kdbal s /\
+  (exists b, x = OBlock b /\ b_fired b = true /\ b_cons b = c /\ b_mint b = 0 /\ b_ws b = [] /\ b_wsi b = []).
+Proof.
+  intros D HB. apply block_inv in HB. destruct HB as (s2 & pay & s3 & mm & ws & wsi & P & M & K & ->).
+  unfold check_disable in P. rewrite D in *. cbn [fst] in P.
+  apply payout_frame in P. cbn [c_rate c_upg c_upg_rate m_min m_max d_tax kd_active kd_prev kd_periods kd_infra supply kdbal] in P.
+  destruct P as (P1 & P2 & P3 & P4 & P5 & P6 & P7 & P8 & P9 & P10 & P11 & P12).
+  unfold mint_bb in M. rewrite P5 in M. cbn [Z.eqb] in M. inversion M; subst s3 mm; clear M.
+  apply kavadist_frame in K. fsimpl.
+  destruct K as (_ & _ & K3 & K4 & K5 & _ & _ & K8 & K9 & K10 & K11 & _ & _ & K14 & _).
+  destruct (K14 P7) as (-> & E). inversion E; subst ws wsi. fsimpl.
+  repeat split; try congruence; try lia. eexists; repeat split.
+Qed.
+
+(** * additivity of the ghost sums *)
+
+Lemma zsum_app l1 l2 : zsum (l1 ++ l2) = zsum l1 + zsum l2.
+Proof. unfold zsum. induction l1 as [|a l1 IH]; cbn [app fold_right]; lia. Qed.
+
+Lemma pays_cons x l : pays (x :: l) = pays [x] ++ pays l.
+Proof. unfold pays. cbn [flat_map]. rewrite app_nil_r. reflexivity. Qed.
+Lemma blocks_cons x l : blocks (x :: l) = blocks [x] ++ blocks l.
+Proof. unfold blocks. cbn [flat_map]. rewrite app_nil_r. reflexivity. Qed.
+
+Lemma paid_sum_cons x l : paid_sum (x :: l) = paid_sum [x] + paid_sum l.
+Proof. unfold paid_sum. rewrite pays_cons, map_app, zsum_app. reflexivity. Qed.
+Lemma sched_sum_cons x l : sched_sum (x :: l) = sched_sum [x] + sched_sum l.
+Proof. unfold sched_sum. rewrite pays_cons, map_app, zsum_app. reflexivity. Qed.
+Lemma rem_sum_cons x l : rem_sum (x :: l) = rem_sum [x] + rem_sum l.
+Proof. unfold rem_sum. rewrite pays_cons, map_app, zsum_app. reflexivity. Qed.
+Lemma loss_sum_cons x l : loss_sum (x :: l) = loss_sum [x] + loss_sum l.
+Proof. unfold loss_sum. rewrite pays_cons, map_app, zsum_app. reflexivity. Qed.
+Lemma adj_sum_cons x l : adj_sum (x :: l) = adj_sum [x] + adj_sum l.
+Proof. unfold adj_sum, zsum. cbn [map fold_right]. lia. Qed.
+Lemma npays_cons x l : npays (x :: l) = npays [x] + npays l.
+Proof. unfold npays. rewrite pays_cons, app_length. lia. Qed.
+
+(** * facts about any successful step *)
+
+Lemma step_facts now s o s' x :
+  InvT now s -> head_ok now o -> step s o = Ok s' x ->
+  InvT (clock now o) s' /\
+  Forall pay_good (pays [x]) /\
+  NS * (PREC * paid_sum [x] + sr_err s') + rem_sum [x] + loss_sum [x] = NS * sr_err s + sched_sum [x] /\
+  pool s' = pool s + adj_sum [x] - paid_sum [x] /\
+  Forall (pay_ctx s s' (adj_sum [x])) (pays [x]) /\
+  (pays [x] = [] -> sr_last s' = sr_last s \/ sr_last s = 0).
+Proof.
+  intros HT HO HS. destruct o; cbn [step clock] in *.
+  - destruct (block_facts now t mint_o cons_o s s' x HT HO HS) as (A & B & C & D & E & F & G).
+    refine (conj A (conj B (conj C (conj D (conj E _))))). intros Hp. right. exact (G Hp).
+  - destruct (Z.ltb_spec (pool s + d) 0); [discriminate|]. inversion HS; subst.
+    unfold paid_sum, rem_sum, loss_sum, sched_sum, adj_sum, pays. fsimpl.
+    destruct HT as (HI & HL & HK). unfold InvT, Inv in *. fsimpl.
+    repeat split; try constructor; try lia; try (left; reflexivity).
+  - destruct (Z.ltb_spec r 0); [discriminate|]. inversion HS; subst.
+    unfold paid_sum, rem_sum, loss_sum, sched_sum, adj_sum, pays. fsimpl.
+    destruct HT as (HI & HL & HK). unfold InvT, Inv in *. fsimpl.
+    repeat split; try constructor; try lia; try (left; reflexivity).
+  - inversion HS; subst.
+    unfold paid_sum, rem_sum, loss_sum, sched_sum, adj_sum, pays. fsimpl.
+    destruct HT as (HI & HL & HK). unfold InvT, Inv in *. fsimpl.
+    repeat split; try constructor; try lia; try (left; reflexivity).
+  - destruct (calc_staking_rewards now0 last err rate pool_dec) as [paid e]. inversion HS; subst.
+    unfold paid_sum, rem_sum, loss_sum, sched_sum, adj_sum, pays. fsimpl.
+    destruct HT as (HI & HL & HK). unfold InvT, Inv in *.
+    repeat split; try constructor; try lia; try (left; reflexivity).
+  - unfold kd_direct in HS. destruct (mint_periods now0 ps 0 prev (supply s)) as [[sup' ws]|]; [|discriminate].
+    inversion HS; subst.
+    unfold paid_sum, rem_sum, loss_sum, sched_sum, adj_sum, pays. fsimpl.
+    destruct HT as (HI & HL & HK). unfold InvT, Inv in *. fsimpl.
+    repeat split; try constructor; try lia; try (left; reflexivity).
+  - unfold kd_direct in HS. destruct (mint_periods now0 ps 0 prev (supply s)) as [[sup' ws]|]; [|discriminate].
+    inversion HS; subst.
+    unfold paid_sum, rem_sum, loss_sum, sched_sum, adj_sum, pays. fsimpl.
+    destruct HT as (HI & HL & HK). unfold InvT, Inv in *. fsimpl.
+    repeat split; try constructor; try lia; try (left; reflexivity).
+Qed.
+
+(** * whole histories *)
+
+Lemma clock_ge now o : head_ok now o -> now <= clock now o.
+Proof. destruct o; cbn; lia. Qed.
+
+Lemma run_facts ops : forall now s sf outs,
+  InvT now s -> mono now ops -> run_outs s ops = (sf, outs) ->
+  Inv sf /\ Forall pay_good (pays outs) /\
+  NS * (PREC * paid_sum outs + sr_err sf) + rem_sum outs + loss_sum outs = NS * sr_err s + sched_sum outs /\
+  pool sf = pool s + adj_sum outs - paid_sum outs.
+Proof.
+  induction ops as [|o r IH]; intros now s sf outs HT HM HR.
+  - cbn in HR. inversion HR; subst. destruct HT as (HI & _).
+    unfold paid_sum, rem_sum, loss_sum, sched_sum, adj_sum, pays. cbn [flat_map map zsum fold_right].
+    repeat split; try constructor; try apply HI; lia.
+  - apply mono_cons in HM. destruct HM as (HO & HM). cbn [run_outs] in HR.
+    destruct (step s o) as [s' x| |] eqn:S.
+    + destruct (run_outs s' r) as [sf' l] eqn:R. inversion HR; subst sf' outs; clear HR.
+      destruct (step_facts now s o s' x HT HO S) as (A & B & C & D & _).
+      destruct (IH _ _ _ _ A HM R) as (A' & B' & C' & D').
+      rewrite pays_cons, paid_sum_cons, rem_sum_cons, loss_sum_cons, sched_sum_cons, adj_sum_cons.
+      repeat split; try apply A'; try lia. apply Forall_app; split; assumption.
+    + apply (IH (clock now o)); try assumption. apply (InvT_weaken now); [assumption|apply clock_ge; assumption].
+    + apply (IH (clock now o)); try assumption. apply (InvT_weaken now); [assumption|apply clock_ge; assumption].
+Qed.
+
+Lemma sums_bounds l : Forall pay_good l ->
+  0 <= zsum (map p_paid l) /\
+  0 <= zsum (map p_rem l) <= (NS - 1) * Z.of_nat (length l) /\
+  0 <= zsum (map p_loss l) /\
+  0 <= zsum (map (fun r => p_gap r * p_rate r) l) /\
+  (Forall (fun r => p_capped r = false) l -> zsum (map p_loss l) = 0) /\
+  (Forall (fun r => p_rem r = 0) l -> zsum (map p_rem l) = 0).
+Proof.
+  induction 1 as [|r l G _ IH]; unfold zsum in *; cbn [map fold_right length].
+  - repeat split; try lia; reflexivity.
+  - destruct G as (G1 & G2 & G3 & G4 & G5 & G6 & G7 & G8 & G9).
+    destruct IH as (I1 & I2 & I3 & I4 & I5 & I6).
+    rewrite Nat2Z.inj_succ. repeat split; try nia.
+    + intros F. inversion F; subst. rewrite (I5 H2), (G8 H1). lia.
+    + intros F. inversion F; subst. rewrite (I6 H2), H1. lia.
+Qed.
+
+(* total paid never exceeds carried-in error + rate * elapsed (all scaled by 10^18 * 10^9) *)
+Lemma staking_upper ops now s sf outs :
+  InvT now s -> mono now ops -> run_outs s ops = (sf, outs) ->
+  NS * PREC * paid_sum outs + NS * sr_err sf <= NS * sr_err s + sched_sum outs.
+Proof.
+  intros HT HM HR. destruct (run_facts ops now s sf outs HT HM HR) as (A & B & C & D).
+  destruct (sums_bounds _ B) as (_ & S2 & S3 & _). unfold rem_sum, loss_sum in C. lia.
+Qed.
+
+Lemma staking_upper0 ops now s sf outs :
+  InvT now s -> mono now ops -> run_outs s ops = (sf, outs) -> sr_err s = 0 ->
+  NS * PREC * paid_sum outs <= sched_sum outs.
+Proof.
+  intros HT HM HR E. pose proof (staking_upper ops now s sf outs HT HM HR) as U.
+  destruct (run_facts ops now s sf outs HT HM HR) as ((A & _) & _). rewrite E in U. unfold NS in *. lia.
+Qed.
+
+(* never above the pool balance *)
+Lemma staking_pool ops now s sf outs :
+  InvT now s -> mono now ops -> run_outs s ops = (sf, outs) ->
+  Forall (fun r => 0 <= p_paid r <= p_pool r) (pays outs) /\
+  0 <= pool sf /\ pool sf = pool s + adj_sum outs - paid_sum outs.
+Proof.
+  intros HT HM HR. destruct (run_facts ops now s sf outs HT HM HR) as (A & B & C & D).
+  repeat split; try assumption.
+  - eapply Forall_impl; [|exact B]. intros r G. apply G.
+  - apply A.
+Qed.
+
+(* exact accounting when the pool never binds; the shortfall bound *)
+Lemma staking_lower ops now s sf outs :
+  InvT now s -> mono now ops -> run_outs s ops = (sf, outs) -> never_capped outs ->
+  NS * sr_err s + sched_sum outs - NS * PREC * paid_sum outs = NS * sr_err sf + rem_sum outs /\
+  NS * sr_err s + sched_sum outs - NS * PREC * paid_sum outs <= NS * (PREC - 1) + (NS - 1) * npays outs.
+Proof.
+  intros HT HM HR HC. destruct (run_facts ops now s sf outs HT HM HR) as (A & B & C & D).
+  destruct (sums_bounds _ B) as (_ & S2 & _ & _ & S5 & _).
+  unfold loss_sum in C. rewrite (S5 HC) in C. destruct A as (A & _).
+  unfold rem_sum, npays in *. split; unfold NS in *; lia.
+Qed.
+
+Lemma staking_lower_strict ops now s sf outs :
+  InvT now s -> mono now ops -> run_outs s ops = (sf, outs) -> never_capped outs ->
+  Forall (fun r => (p_gap r * p_rate r) mod NS = 0) (pays outs) ->
+  NS * sr_err s + sched_sum outs - NS * PREC * paid_sum outs < NS * PREC.
+Proof.
+  intros HT HM HR HC HD. destruct (staking_lower ops now s sf outs HT HM HR HC) as (E & _).
+  destruct (run_facts ops now s sf outs HT HM HR) as ((A & _) & B & _).
+  destruct (sums_bounds _ B) as (_ & _ & _ & _ & _ & S6).
+  unfold rem_sum in E. rewrite (S6 HD) in E. unfold NS in *. lia.
+Qed.
+
+(* two ways of cutting the same scheduled amount into blocks *)
+Lemma partition_independence ops1 ops2 now s sf1 outs1 sf2 outs2 :
+  InvT now s -> mono now ops1 -> mono now ops2 ->
+  run_outs s ops1 = (sf1, outs1) -> run_outs s ops2 = (sf2, outs2) ->
+  never_capped outs1 -> never_capped outs2 -> sched_sum outs1 = sched_sum outs2 ->
+  NS * PREC * Z.abs (paid_sum outs1 - paid_sum outs2) <=
+    NS * (PREC - 1) + (NS - 1) * Z.max (npays outs1) (npays outs2).
+Proof.
+  intros HT M1 M2 R1 R2 C1 C2 E.
+  destruct (staking_lower ops1 now s sf1 outs1 HT M1 R1 C1) as (E1 & _).
+  destruct (staking_lower ops2 now s sf2 outs2 HT M2 R2 C2) as (E2 & _).
+  destruct (run_facts ops1 now s sf1 outs1 HT M1 R1) as ((A1 & _) & B1 & _).
+  destruct (run_facts ops2 now s sf2 outs2 HT M2 R2) as ((A2 & _) & B2 & _).
+  destruct (sums_bounds _ B1) as (_ & S1 & _). destruct (sums_bounds _ B2) as (_ & S2 & _).
+  unfold rem_sum, npays in *. unfold NS in *. lia.
+Qed.
+
+(** * steps other than blocks *)
+
+Definition no_rate_change (o : op) : Prop := match o with SetRate _ => False | _ => True end.
+Definition is_block (o : op) : bool := match o with Block _ _ _ => true | _ => false end.
+
+Lemma nonblock_frame s o s' x : is_block o = false -> step s o = Ok s' x ->
+  sr_last s' = sr_last s /\ sr_err s' = sr_err s /\ c_upg s' = c_upg s /\ c_upg_rate s' = c_upg_rate s /\
+  m_min s' = m_min s /\ m_max s' = m_max s /\ d_tax s' = d_tax s /\ kd_prev s' = kd_prev s /\
+  (no_rate_change o -> c_rate s' = c_rate s) /\
+  (chain_op o -> supply s' = supply s /\ kdbal s' = kdbal s /\ (kd_active s = false -> kd_active s' = false)) /\
+  blocks [x] = [] /\ pays [x] = [].
+Proof.
+  intros NB HS. destruct o; cbn [is_block step] in *; try discriminate.
+  - destruct (pool s + d <? 0); [discriminate|]. inversion HS; subst. cbn. repeat split; auto.
+  - destruct (r <? 0); [discriminate|]. inversion HS; subst. cbn. repeat split; auto. intros [].
+  - inversion HS; subst. cbn. repeat split; auto; destruct b; cbn in *; try contradiction; auto.
+  - destruct (calc_staking_rewards now last err rate pool_dec). inversion HS; subst. cbn. repeat split; auto; intros [].
+  - unfold kd_direct in HS. destruct (mint_periods now ps 0 prev (supply s)) as [[? ?]|]; [|discriminate].
+    inversion HS; subst. cbn. repeat split; auto; try contradiction; try (intros []).
+  - unfold kd_direct in HS. destruct (mint_periods now ps 0 prev (supply s)) as [[? ?]|]; [|discriminate].
+    inversion HS; subst. cbn. repeat split; auto; try contradiction; try (intros []).
+Qed.
+
+Lemma switch_due_unarmed t s : c_upg s = 0 -> switch_due t s = false.
+Proof. intros E. unfold switch_due. rewrite E. reflexivity. Qed.
+
+(* with the trigger cleared and no rate update, the scheduled amount of a
+   history is rate * (last accumulation time at the end - at the start) *)
+Lemma sched_const ops : forall now s sf outs,
+  InvT now s -> mono now ops -> Forall no_rate_change ops -> c_upg s = 0 -> sr_last s <> 0 ->
+  run_outs s ops = (sf, outs) ->
+  sched_sum outs = (sr_last sf - sr_last s) * c_rate s /\ sr_last s <= sr_last sf.
+Proof.
+  induction ops as [|o r IH]; intros now s sf outs HT HM HN HU HL HR.
+  - cbn in HR. inversion HR; subst. unfold sched_sum, pays. cbn. lia.
+  - apply mono_cons in HM. destruct HM as (HO & HM). inversion HN as [|? ? N1 N2]; subst. cbn [run_outs] in HR.
+    destruct (step s o) as [s' x| |] eqn:S.
+    + destruct (run_outs s' r) as [sf' l] eqn:R. inversion HR; subst sf' outs; clear HR.
+      destruct (step_facts now s o s' x HT HO S) as (A & B & C & D & E & F).
+      assert (P : c_upg s' = 0 /\ c_rate s' = c_rate s).
+      { destruct (is_block o) eqn:IB.
+        - destruct o; try discriminate. cbn [step] in S.
+          destruct (block_nofire _ _ _ _ _ _ (switch_due_unarmed t s HU) S) as (P1 & P2 & _). split; congruence.
+        - destruct (nonblock_frame s o s' x IB S) as (_ & _ & P3 & _ & _ & _ & _ & _ & P9 & _). split; [congruence|auto]. }
+      destruct P as (P1 & P2).
+      assert (Q : sched_sum [x] = (sr_last s' - sr_last s) * c_rate s /\ sr_last s <= sr_last s' /\ sr_last s' <> 0).
+      { unfold sched_sum. destruct (pays [x]) as [|p [|p' l']] eqn:EP.
+        - destruct (F eq_refl) as [F1|F1]; [|contradiction]. rewrite F1. cbn. lia.
+        - inversion E as [|? ? E1 _]; subst. destruct E1 as (_ & _ & E3 & E4 & _).
+          inversion B as [|? ? B1 _]; subst. destruct B1 as (B1 & _).
+          unfold zsum. cbn [map fold_right]. rewrite E3, E4, P2. split; [lia|]. split; [lia|].
+          destruct HT as ((_ & _ & _ & _ & T5 & _) & _). lia.
+        - exfalso. unfold pays in EP. cbn [flat_map] in EP. destruct x; try discriminate.
+          destruct (b_pay b); discriminate. }
+      destruct Q as (Q1 & Q2 & Q3).
+      destruct (IH _ _ _ _ A HM N2 P1 Q3 R) as (I1 & I2).
+      rewrite sched_sum_cons, Q1, I1, P2. split; lia.
+    + apply (IH (clock now o)); try assumption. apply (InvT_weaken now); [assumption|apply clock_ge; assumption].
+    + apply (IH (clock now o)); try assumption. apply (InvT_weaken now); [assumption|apply clock_ge; assumption].
+Qed.
+
+(** * the one-shot switch *)
+
+Definition off (s : state) : Prop :=
+  c_upg s = 0 /\ m_min s = 0 /\ m_max s = 0 /\ kd_active s = false.
+
+Lemma fired_count_cons x l : fired_count (x :: l) = (fired_count [x] + fired_count l)%nat.
+Proof. unfold fired_count. rewrite blocks_cons, filter_app, app_length. reflexivity. Qed.
+
+(* a block with the trigger cleared, x/mint at zero and kavadist inactive creates no ukava *)
+Lemma block_off_supply t m c s s' x : off s -> block t m c s = Ok s' x ->
+  off s' /\ supply s' = supply s /\ kdbal s' = kdbal s /\ fired_count [x] = 0%nat.
+Proof.
+  intros (O1 & O2 & O3 & O4) HB.
+  pose proof (block_nofire _ _ _ _ _ _ (switch_due_unarmed t s O1) HB) as (N1 & N2 & N3 & N4 & N5 & N6 & N7 & (b & -> & Fb & _)).
+  apply block_inv in HB. destruct HB as (s2 & pay & s3 & mm & ws & wsi & P & M & K & E).
+  unfold check_disable in P. rewrite (switch_due_unarmed t s O1) in P. cbn [fst] in P.
+  apply payout_frame in P. destruct P as (P1 & P2 & P3 & P4 & P5 & P6 & P7 & P8 & P9 & P10 & P11 & P12).
+  unfold mint_bb in M. rewrite P5, O3 in M. cbn [Z.eqb] in M. inversion M; subst s3 mm; clear M.
+  apply kavadist_frame in K. destruct K as (_ & _ & _ & _ & _ & _ & _ & _ & _ & _ & _ & _ & _ & K14 & _).
+  fsimpl. destruct (K14 ltac:(congruence)) as (-> & _). fsimpl.
+  unfold off. fsimpl. repeat split; try congruence; try lia.
+  unfold fired_count, blocks. cbn [flat_map app filter]. rewrite Fb. reflexivity.
+Qed.
+
+Lemma stays_off ops : forall s sf outs,
+  Forall chain_op ops -> off s -> run_outs s ops = (sf, outs) ->
+  off sf /\ supply sf = supply s /\ kdbal sf = kdbal s /\ fired_count outs = 0%nat.
+Proof.
+  induction ops as [|o r IH]; intros s sf outs HC HO HR.
+  - cbn in HR. inversion HR; subst. repeat split; try apply HO.
+  - inversion HC as [|? ? C1 C2]; subst. cbn [run_outs] in HR.
+    destruct (step s o) as [s' x| |] eqn:S; try (eapply IH; eassumption).
+    destruct (run_outs s' r) as [sf' l] eqn:R. inversion HR; subst sf' outs; clear HR.
+    assert (Q : off s' /\ supply s' = supply s /\ kdbal s' = kdbal s /\ fired_count [x] = 0%nat).
+    { destruct (is_block o) eqn:IB.
+      - destruct o; try discriminate. cbn [step] in S. eapply block_off_supply; eassumption.
+      - destruct (nonblock_frame s o s' x IB S) as (_ & _ & F3 & _ & F5 & F6 & _ & _ & _ & F10 & F11 & _).
+        destruct (F10 C1) as (G1 & G2 & G3). destruct HO as (O1 & O2 & O3 & O4).
+        unfold off, fired_count. rewrite F11. repeat split; try congruence; auto. }
+    destruct Q as (Q1 & Q2 & Q3 & Q4).
+    destruct (IH _ _ _ C2 Q1 R) as (I1 & I2 & I3 & I4).
+    rewrite fired_count_cons, Q4, I4. repeat split; try apply I1; congruence.
+Qed.
+
+(* no operation of the model re-arms the trigger: it fires at most once in any history *)
+Lemma upg_zero_never_fires ops : forall s sf outs,
+  c_upg s = 0 -> run_outs s ops = (sf, outs) -> c_upg sf = 0 /\ fired_count outs = 0%nat.
+Proof.
+  induction ops as [|o r IH]; intros s sf outs HU HR.
+  - cbn in HR. inversion HR; subst. auto.
+  - cbn [run_outs] in HR.
+    destruct (step s o) as [s' x| |] eqn:S; try (eapply IH; eassumption).
+    destruct (run_outs s' r) as [sf' l] eqn:R. inversion HR; subst sf' outs; clear HR.
+    assert (Q : c_upg s' = 0 /\ fired_count [x] = 0%nat).
+    { destruct (is_block o) eqn:IB.
+      - destruct o; try discriminate. cbn [step] in S.
+        destruct (block_nofire _ _ _ _ _ _ (switch_due_unarmed t s HU) S) as (_ & N2 & _ & _ & _ & _ & _ & (b & -> & Fb & _)).
+        split; [congruence|]. unfold fired_count, blocks. cbn [flat_map app filter]. rewrite Fb. reflexivity.
+      - destruct (nonblock_frame s o s' x IB S) as (_ & _ & F3 & _ & _ & _ & _ & _ & _ & _ & F11 & _).
+        unfold fired_count. rewrite F11. split; [congruence|reflexivity]. }
+    destruct Q as (Q1 & Q2). destruct (IH _ _ _ Q1 R) as (I1 & I2).
+    rewrite fired_count_cons, Q2, I2. auto.
+Qed.
+
+Lemma fires_at_most_once ops : forall s sf outs,
+  run_outs s ops = (sf, outs) -> (fired_count outs <= 1)%nat.
+Proof.
+  induction ops as [|o r IH]; intros s sf outs HR.
+  - cbn in HR. inversion HR; subst. cbn. lia.
+  - cbn [run_outs] in HR.
+    destruct (step s o) as [s' x| |] eqn:S; try (eapply IH; eassumption).
+    destruct (run_outs s' r) as [sf' l] eqn:R. inversion HR; subst sf' outs; clear HR.
+    rewrite fired_count_cons.
+    destruct (is_block o) eqn:IB.
+    + destruct o; try discriminate. cbn [step] in S.
+      destruct (switch_due t s) eqn:D.
+      * destruct (block_fire _ _ _ _ _ _ D S) as (_ & N2 & _ & _ & _ & _ & _ & _ & _ & (b & -> & Fb & _)).
+        destruct (upg_zero_never_fires r s' sf l N2 R) as (_ & Z0). rewrite Z0.
+        unfold fired_count, blocks. cbn [flat_map app filter]. rewrite Fb. cbn. lia.
+      * destruct (block_nofire _ _ _ _ _ _ D S) as (_ & _ & _ & _ & _ & _ & _ & (b & -> & Fb & _)).
+        specialize (IH _ _ _ R). unfold fired_count at 1, blocks. cbn [flat_map app filter]. rewrite Fb. cbn. lia.
+    + destruct (nonblock_frame s o s' x IB S) as (_ & _ & _ & _ & _ & _ & _ & _ & _ & _ & F11 & _).
+      specialize (IH _ _ _ R). unfold fired_count at 1. rewrite F11. cbn. lia.
+Qed.
+
+(** * kavadist windows *)
+
+Lemma unix_mono a b : a <= b -> unix a <= unix b.
+Proof. intros Hab. unfold unix. apply Z.div_le_mono; [apply NS_pos|exact Hab]. Qed.
+
+Lemma kd_mint_some infl secs sup a : kd_mint infl secs sup = Some a ->
+  0 <= secs /\ a = kd_amount infl secs sup /\ 0 <= a.
+Proof.
+  unfold kd_mint. destruct (Z.ltb_spec infl 0) as [L1|L1]; cbn [orb]; [discriminate|].
+  destruct (Z.ltb_spec secs 0) as [L2|L2]; [discriminate|].
+  destruct (Z.ltb_spec (kd_amount infl secs sup) 0) as [L3|L3]; [discriminate|].
+  intros HS; inversion HS; subst. repeat split; lia.
+Qed.
+
+(* what is true of every window: inside the block interval (prev0, now], inside
+   the period [Start, End], of non-negative length *)
+Definition win_ok (now prev0 : Z) (w : window) : Prop :=
+  prev0 <= w_prev w /\ w_from w = unix (w_prev w) /\ unix prev0 <= w_from w /\ w_from w <= w_to w /\
+  w_to w <= unix now /\ w_to w <= unix (p_end (w_per w)) /\ 0 <= w_amt w /\
+  unix (p_start (w_per w)) <= w_from w.
+
+Lemma win_ok_weaken now p p' w : p <= p' -> win_ok now p' w -> win_ok now p w.
+Proof.
+  intros L (A & B & C & D). pose proof (unix_mono _ _ L). unfold win_ok. repeat split; try apply D; try lia.
+Qed.
+
+Lemma not_in_idx i ws : Forall (fun w => (S i <= w_idx w)%nat) ws -> ~ In i (map w_idx ws).
+Proof.
+  induction 1 as [|w l Hw _ IH]; cbn [map In]; [tauto|]. intros [E|E]; [lia|tauto].
+Qed.
+
+Lemma replay_cons sup w ws :
+  replay_ws sup (w :: ws) = replay_ws (sup + kd_amount (p_infl (w_per w)) (w_to w - w_from w) sup) ws.
+Proof. reflexivity. Qed.
+
+Lemma mint_periods_windows now : forall ps i prev sup sup' ws,
+  prev <= now -> mint_periods now ps i prev sup = Some (sup', ws) ->
+  Forall (fun w => win_ok now prev w /\ In (w_per w) ps /\ (i <= w_idx w)%nat) ws /\
+  NoDup (map w_idx ws) /\ sup' = replay_ws sup ws /\ sup <= sup'.
+Proof.
+  induction ps as [|p r IH]; intros i prev sup sup' ws Hpn HM; cbn [mint_periods] in HM.
+  - inversion HM; subst. repeat split; try constructor; try lia.
+  - assert (Lift : forall prev' sup1 ws1, prev <= prev' -> prev' <= now -> sup <= sup1 ->
+              mint_periods now r (S i) prev' sup1 = Some (sup', ws1) ->
+              Forall (fun w => win_ok now prev w /\ In (w_per w) (p :: r) /\ (i <= w_idx w)%nat) ws1 /\
+              Forall (fun w => (S i <= w_idx w)%nat) ws1 /\ NoDup (map w_idx ws1) /\ sup' = replay_ws sup1 ws1 /\ sup <= sup').
+    { intros prev' sup1 ws1 L1 L2 L3 HR. destruct (IH _ _ _ _ _ L2 HR) as (F & N & E & G).
+      repeat split; try assumption; try lia.
+      - eapply Forall_impl; [|exact F]. intros w (W1 & W2 & W3).
+        split; [eapply win_ok_weaken; eassumption|split; [right; assumption|lia]].
+      - eapply Forall_impl; [|exact F]. intros w (_ & _ & W3). exact W3. }
+    destruct (Z.ltb_spec (p_end p) prev) as [C1|C1].
+    { destruct (Lift prev sup ws ltac:(lia) Hpn ltac:(lia) HM) as (F & _ & N & E & G). repeat split; assumption. }
+    unfold kd_case2, kd_case3 in HM.
+    destruct (Z.ltb_spec prev (p_end p)) as [C2a|C2a]; destruct (Z.leb_spec (p_end p) now) as [C2b|C2b]; cbn [andb] in HM.
+    + (* case 2 *)
+      set (from := Z.max prev (p_start p)) in *.
+      destruct (kd_mint (p_infl p) (unix (p_end p) - unix from) sup) as [a|] eqn:KM; [|discriminate].
+      destruct (mint_periods now r (S i) (p_end p) (sup + a)) as [[sup2 ws2]|] eqn:R; [|discriminate].
+      inversion HM; subst sup2 ws; clear HM.
+      destruct (kd_mint_some _ _ _ _ KM) as (K1 & K2 & K3).
+      destruct (Lift (p_end p) (sup + a) ws2 ltac:(lia) C2b ltac:(lia) R) as (F & F2 & N & E & G).
+      assert (Hfrom : prev <= from /\ p_start p <= from) by (unfold from; lia).
+      repeat split.
+      * constructor; [|exact F]. unfold win_ok. cbn [w_per w_idx w_prev w_from w_to w_amt].
+        pose proof (unix_mono _ _ (proj1 Hfrom)). pose proof (unix_mono _ _ (proj2 Hfrom)). pose proof (unix_mono _ _ C2b).
+        repeat split; try lia; try (left; reflexivity).
+      * cbn [map]. constructor; [apply not_in_idx; exact F2|exact N].
+      * rewrite replay_cons. cbn [w_per w_to w_from]. rewrite <- K2. exact E.
+      * lia.
+    + (* End > now *)
+      destruct (Z.leb_spec (p_start p) prev) as [C3a|C3a]; destruct (Z.ltb_spec now (p_end p)) as [C3b|C3b]; cbn [andb] in HM;
+        try (destruct (Lift prev sup ws ltac:(lia) Hpn ltac:(lia) HM) as (F & _ & N & E & G); repeat split; assumption).
+      destruct (kd_mint (p_infl p) (unix now - unix prev) sup) as [a|] eqn:KM; [|discriminate].
+      destruct (mint_periods now r (S i) prev (sup + a)) as [[sup2 ws2]|] eqn:R; [|discriminate].
+      inversion HM; subst sup2 ws; clear HM.
+      destruct (kd_mint_some _ _ _ _ KM) as (K1 & K2 & K3).
+      destruct (Lift prev (sup + a) ws2 ltac:(lia) Hpn ltac:(lia) R) as (F & F2 & N & E & G).
+      repeat split.
+      * constructor; [|exact F]. unfold win_ok. cbn [w_per w_idx w_prev w_from w_to w_amt].
+        pose proof (unix_mono _ _ C3a). pose proof (unix_mono now (p_end p) ltac:(lia)).
+        repeat split; try lia; try (left; reflexivity).
+      * cbn [map]. constructor; [apply not_in_idx; exact F2|exact N].
+      * rewrite replay_cons. cbn [w_per w_to w_from]. rewrite <- K2. exact E.
+      * lia.
+    + (* End = prev: neither case 2 nor (as End <= now) case 3 *)
+      destruct (Z.leb_spec (p_start p) prev) as [C3a|C3a]; destruct (Z.ltb_spec now (p_end p)) as [C3b|C3b]; cbn [andb] in HM;
+        try lia;
+        try (destruct (Lift prev sup ws ltac:(lia) Hpn ltac:(lia) HM) as (F & _ & N & E & G); repeat split; assumption).
+    + lia.
+Qed.
+
+Definition win_in (p t : Z) (w : window) : Prop :=
+  unix p <= w_from w /\ w_from w <= w_to w /\ w_to w <= unix t.
+
+Lemma win_ok_in now p w : win_ok now p w -> win_in p now w.
+Proof. intros (A & B & C & D & E & _). unfold win_in. lia. Qed.
+
+Lemma kavadist_windows t s s' ws wsi : 0 <= kd_prev s <= t -> kavadist_bb t s = Ok s' (ws, wsi) ->
+  Forall (win_ok t (kd_prev s)) ws /\ Forall (win_ok t (kd_prev s)) wsi /\
+  NoDup (map w_idx ws) /\ NoDup (map w_idx wsi) /\
+  kd_prev s <= kd_prev s' <= t /\ (ws ++ wsi <> [] -> kd_prev s' = t) /\
+  supply s' = replay_ws (replay_ws (supply s) ws) wsi /\ supply s <= supply s'.
+Proof.
+  intros Hp. unfold kavadist_bb. destruct (kd_active s); cbn [negb].
+  - destruct (Z.eqb_spec (kd_prev s) 0) as [Z0|NZ].
+    + intros H; inversion H; subst. cbn. repeat split; try constructor; try lia; try (intros C; contradiction).
+    + destruct (mint_periods t (kd_periods s) 0 (kd_prev s) (supply s)) as [[sup1 ws1]|] eqn:M1; [|discriminate].
+      destruct (mint_periods t (kd_infra s) 0 (kd_prev s) sup1) as [[sup2 ws2]|] eqn:M2; [|discriminate].
+      intros H; inversion H; subst. fsimpl.
+      destruct (mint_periods_windows _ _ _ _ _ _ _ (proj2 Hp) M1) as (F1 & N1 & E1 & G1).
+      destruct (mint_periods_windows _ _ _ _ _ _ _ (proj2 Hp) M2) as (F2 & N2 & E2 & G2).
+      repeat split; try assumption; try lia.
+      * eapply Forall_impl; [|exact F1]. intros w W. apply W.
+      * eapply Forall_impl; [|exact F2]. intros w W. apply W.
+      * congruence.
+  - intros H; inversion H; subst. cbn. repeat split; try constructor; try lia; try (intros C; contradiction).
+Qed.
+
+Lemma block_kd now t m c s s' x :
+  InvT now s -> head_ok now (Block t m c) -> block t m c s = Ok s' x ->
+  exists b, x = OBlock b /\
+    Forall (win_ok t (kd_prev s)) (b_ws b) /\ Forall (win_ok t (kd_prev s)) (b_wsi b) /\
+    NoDup (map w_idx (b_ws b)) /\ NoDup (map w_idx (b_wsi b)) /\
+    kd_prev s <= kd_prev s' <= t /\ (b_ws b ++ b_wsi b <> [] -> kd_prev s' = t) /\
+    supply s' = replay_ws (replay_ws (supply s + b_mint b) (b_ws b)) (b_wsi b).
+Proof.
+  intros (HI & HL & HK) (Hn & Ht & Hm & Hc) HB.
+  apply block_inv in HB. destruct HB as (s2 & pay & s3 & mm & ws & wsi & P & M & K & ->).
+  destruct (check_disable_last t c s) as (_ & _ & L3).
+  assert (Sup1 : supply (fst (check_disable t c s)) = supply s).
+  { unfold check_disable. destruct (switch_due t s); reflexivity. }
+  apply payout_frame in P. destruct P as (_ & _ & _ & _ & _ & _ & _ & P8 & _ & _ & P11 & _).
+  unfold mint_bb in M. inversion M; subst s3 mm; clear M.
+  destruct HI as (_ & _ & _ & _ & _ & _ & HI7 & _).
+  apply kavadist_windows in K; fsimpl; [|lia].
+  destruct K as (K1 & K2 & K3 & K4 & K5 & K6 & K7 & _).
+  eexists; split; [reflexivity|]. fsimpl. rewrite P8, L3 in *. rewrite P11, Sup1 in K7.
+  repeat split; try assumption; lia.
+Qed.
+
+Definition all_windows (l : list out) : list (list window) := map (fun b => b_ws b ++ b_wsi b) (blocks l).
+Definition later (W W' : list window) : Prop := forall w w', In w W -> In w' W' -> w_to w <= w_from w'.
+
+Lemma all_windows_cons x l : all_windows (x :: l) = all_windows [x] ++ all_windows l.
+Proof. unfold all_windows. rewrite blocks_cons, map_app. reflexivity. Qed.
+
+(* windows of different blocks never overlap: no second is minted twice *)
+Lemma windows_ordered ops : forall now s sf outs,
+  InvT now s -> mono now ops -> run_outs s ops = (sf, outs) ->
+  Forall (Forall (fun w => unix (kd_prev s) <= w_from w)) (all_windows outs) /\
+  ForallOrdPairs later (all_windows outs).
+Proof.
+  induction ops as [|o r IH]; intros now s sf outs HT HM HR.
+  - cbn in HR. inversion HR; subst. split; constructor.
+  - apply mono_cons in HM. destruct HM as (HO & HM). cbn [run_outs] in HR.
+    destruct (step s o) as [s' x| |] eqn:S.
+    + destruct (run_outs s' r) as [sf' l] eqn:R. inversion HR; subst sf' outs; clear HR.
+      destruct (step_facts now s o s' x HT HO S) as (A & _).
+      destruct (IH _ _ _ _ A HM R) as (I1 & I2).
+      destruct (is_block o) eqn:IB.
+      * destruct o; try discriminate. cbn [step clock] in *.
+        destruct (block_kd now t mint_o cons_o s s' x HT HO S) as (b & -> & B1 & B2 & _ & _ & B5 & B6 & _).
+        rewrite all_windows_cons. unfold all_windows at 1 3, blocks. cbn [flat_map app map].
+        assert (W : Forall (win_ok t (kd_prev s)) (b_ws b ++ b_wsi b)) by (apply Forall_app; split; assumption).
+        split.
+        -- constructor.
+           ++ eapply Forall_impl; [|exact W]. intros w Hw. apply Hw.
+           ++ eapply Forall_impl; [|exact I1]. intros W' HW'. eapply Forall_impl; [|exact HW'].
+              intros w Hw. cbv beta in Hw. pose proof (unix_mono _ _ (proj1 B5)). lia.
+        -- constructor; [|exact I2].
+           rewrite Forall_forall. intros W' HW' w w' Hw Hw'.
+           rewrite Forall_forall in I1. specialize (I1 W' HW'). rewrite Forall_forall in I1. specialize (I1 w' Hw').
+           rewrite Forall_forall in W. destruct (W w Hw) as (_ & _ & _ & _ & W5 & _).
+           assert (NE : b_ws b ++ b_wsi b <> []) by (intros E; rewrite E in Hw; exact Hw).
+           rewrite (B6 NE) in I1. lia.
+      * destruct (nonblock_frame s o s' x IB S) as (_ & _ & _ & _ & _ & _ & _ & F8 & _ & _ & F11 & _).
+        rewrite all_windows_cons. unfold all_windows at 1 3. rewrite F11. cbn [map app].
+        rewrite F8 in I1. split; assumption.
+    + eapply (IH (clock now o)); [apply (InvT_weaken now); [eassumption|apply clock_ge; assumption]|eassumption|eassumption].
+    + eapply (IH (clock now o)); [apply (InvT_weaken now); [eassumption|apply clock_ge; assumption]|eassumption|eassumption].
+Qed.
+
+(** * kavadist does not panic on valid, non-deflationary schedules (zero amounts included) *)
+
+Lemma rel_pow_fuel_ge b : 0 < b -> forall fuel x n z, b <= x -> b <= z -> b <= rel_pow_fuel fuel x n b z.
+Proof.
+  intros Hb. induction fuel as [|k IH]; intros x n z Hx Hz; cbn [rel_pow_fuel]; [exact Hz|].
+  destruct (n / 2 =? 0); [exact Hz|].
+  assert (X : b <= (x * x + b / 2) / b).
+  { apply Z.div_le_lower_bound; [lia|]. assert (0 <= b / 2) by (apply Z.div_pos; lia). nia. }
+  apply IH; [exact X|].
+  destruct ((n / 2) mod 2 =? 0); [exact Hz|].
+  apply Z.div_le_lower_bound; [lia|]. assert (0 <= b / 2) by (apply Z.div_pos; lia). nia.
+Qed.
+
+Lemma rel_pow_ge x n b : 0 < b -> b <= x -> b <= rel_pow x n b.
+Proof.
+  intros Hb Hx. unfold rel_pow. destruct (Z.eqb_spec x 0); [lia|].
+  apply rel_pow_fuel_ge; try assumption. destruct (n mod 2 =? 0); lia.
+Qed.
+
+Lemma kd_amount_nonneg infl secs sup : PREC <= infl -> 0 <= sup -> 0 <= kd_amount infl secs sup.
+Proof.
+  intros Hi Hs. unfold kd_amount.
+  assert (E1 : dec_trunc_int (dec_mul infl (dec_of_int PREC)) = infl).
+  { unfold dec_mul, dec_of_int, dec_trunc_int. replace (infl * (PREC * PREC)) with ((infl * PREC) * PREC) by ring.
+    rewrite chop_round_exact by (unfold PREC in *; lia). apply Z.quot_mul. unfold PREC; lia. }
+  rewrite E1. pose proof (rel_pow_ge infl secs PREC PREC_pos Hi) as R.
+  set (rp := rel_pow infl secs PREC) in *.
+  assert (E2 : dec_mul (dec_of_int rp) 1 = rp).
+  { unfold dec_mul, dec_of_int. rewrite Z.mul_1_r. apply chop_round_exact. unfold PREC in *; lia. }
+  rewrite E2. unfold dec_mul, dec_of_int, dec_sub, dec_trunc_int.
+  replace (sup * PREC * rp) with ((sup * rp) * PREC) by ring.
+  rewrite chop_round_exact by (unfold PREC in *; nia).
+  apply Z.quot_pos; [|unfold PREC; lia]. nia.
+Qed.
+
+Fixpoint periods_ok (ps : list period) : Prop :=
+  match ps with [] => True | p :: r => p_start p <= p_end p /\ PREC <= p_infl p /\ periods_ok r end.
+
+Lemma mint_periods_no_panic now : forall ps i prev sup,
+  prev <= now -> 0 <= sup -> periods_ok ps -> mint_periods now ps i prev sup <> None.
+Proof.
+  induction ps as [|p r IH]; intros i prev sup Hpn Hs HP; cbn [mint_periods]; [discriminate|].
+  destruct HP as (P1 & P2 & P3).
+  assert (KM : forall secs, 0 <= secs -> exists a, kd_mint (p_infl p) secs sup = Some a /\ 0 <= a).
+  { intros secs Hsec. unfold kd_mint.
+    destruct (Z.ltb_spec (p_infl p) 0); [unfold PREC in *; lia|]. destruct (Z.ltb_spec secs 0); [lia|]. cbn [orb].
+    pose proof (kd_amount_nonneg (p_infl p) secs sup P2 Hs).
+    destruct (Z.ltb_spec (kd_amount (p_infl p) secs sup) 0); [lia|]. eexists; split; [reflexivity|lia]. }
+  destruct (p_end p <? prev); [apply IH; assumption|].
+  unfold kd_case2, kd_case3.
+  destruct (Z.ltb_spec prev (p_end p)) as [C2a|C2a]; destruct (Z.leb_spec (p_end p) now) as [C2b|C2b]; cbn [andb].
+  - assert (0 <= unix (p_end p) - unix (Z.max prev (p_start p))).
+    { pose proof (unix_mono (Z.max prev (p_start p)) (p_end p) ltac:(lia)). lia. }
+    destruct (KM _ H) as (a & -> & Ha).
+    specialize (IH (S i) (p_end p) (sup + a) C2b ltac:(lia) P3).
+    destruct (mint_periods now r (S i) (p_end p) (sup + a)) as [[? ?]|]; [discriminate|contradiction].
+  - destruct ((p_start p <=? prev) && (now <? p_end p)); [|apply IH; assumption].
+    assert (0 <= unix now - unix prev) by (pose proof (unix_mono _ _ Hpn); lia).
+    destruct (KM _ H) as (a & -> & Ha).
+    specialize (IH (S i) prev (sup + a) Hpn ltac:(lia) P3).
+    destruct (mint_periods now r (S i) prev (sup + a)) as [[? ?]|]; [discriminate|contradiction].
+  - destruct ((p_start p <=? prev) && (now <? p_end p)) eqn:C3; [|apply IH; assumption].
+    apply andb_true_iff in C3. destruct C3 as (_ & C3). apply Z.ltb_lt in C3. lia.
+  - lia.
+Qed.
